@@ -9,6 +9,20 @@ use std::sync::{Arc, Condvar, Mutex, MutexGuard};
 pub struct Sched {
     st: Mutex<St>,
     cv: Condvar,
+    /// kernel thread ids of the simulated threads (for the watchdog's /proc state probe)
+    os_tids: Vec<std::sync::atomic::AtomicU64>,
+}
+
+fn own_os_tid() -> u64 {
+    // "/proc/thread-self" -> "<pid>/task/<tid>"
+    std::fs::read_link("/proc/thread-self").ok().and_then(|p| p.file_name().and_then(|n| n.to_str()).and_then(|n| n.parse().ok())).unwrap_or(0)
+}
+
+/// Kernel scheduling state of one of our threads: 'R' running, 'S' sleeping (futex wait), ...
+fn os_thread_state(tid: u64) -> Option<char> {
+    let stat = std::fs::read_to_string(format!("/proc/self/task/{tid}/stat")).ok()?;
+    // "<tid> (<comm>) <state> ..."; comm may contain spaces and parentheses: take the last ')'
+    stat[stat.rfind(')')? + 1..].trim_start().chars().next()
 }
 struct St {
     cur: usize,
@@ -22,6 +36,14 @@ struct St {
     switches: u64,
     inner_switches: u64,
     yields: u64,
+    /// bumped at every scheduler event; the coordinating thread watches it
+    progress: u64,
+    /// thread is inside the scheduler's own condvar wait (not yet resumed after being chosen)
+    waiting: Vec<bool>,
+    /// fallback: the baton holder blocked on something the scheduler does not own (a lock that a
+    /// change added and that a parked thread holds). All threads are released for the rest of
+    /// the run; the run completes, but its interleaving is no longer decided by the simulator.
+    free: bool,
 }
 
 #[derive(Clone, Debug, Default)]
@@ -32,6 +54,7 @@ pub struct SchedReport {
     /// switches at yield points inside a conversion or inside the logger (not at op boundaries)
     pub inner_switches: u64,
     pub yields: u64,
+    pub fell_back_to_free_running: bool,
 }
 
 thread_local! {
@@ -56,12 +79,15 @@ impl Sched {
             switches: 0,
             inner_switches: 0,
             yields: 0,
+            progress: 0,
+            waiting: vec![false; nthreads],
+            free: false,
         };
         // first decision: who starts
         let first = Self::decide(&mut st, usize::MAX, true);
         st.rec.push(first as u8);
         st.cur = first;
-        Arc::new(Sched { st: Mutex::new(st), cv: Condvar::new() })
+        Arc::new(Sched { st: Mutex::new(st), cv: Condvar::new(), os_tids: (0..nthreads).map(|_| std::sync::atomic::AtomicU64::new(0)).collect() })
     }
 
     fn lock(&self) -> MutexGuard<'_, St> {
@@ -91,14 +117,23 @@ impl Sched {
     /// Called by a simulated thread before it does anything: wait for the baton.
     pub fn enter(self: &Arc<Self>, tid: usize) {
         CUR.with(|c| *c.borrow_mut() = Some((Arc::clone(self), tid)));
+        self.os_tids[tid].store(own_os_tid(), std::sync::atomic::Ordering::Relaxed);
         let mut st = self.lock();
-        while st.cur != tid {
+        st.progress += 1;
+        st.waiting[tid] = true;
+        while st.cur != tid && !st.free {
             st = self.cv.wait(st).unwrap_or_else(std::sync::PoisonError::into_inner);
         }
+        st.waiting[tid] = false;
+        st.progress += 1;
     }
 
     fn yield_at(&self, tid: usize, site: &'static str, boundary: bool) {
         let mut st = self.lock();
+        st.progress += 1;
+        if st.free {
+            return;
+        }
         debug_assert_eq!(st.cur, tid);
         st.yields += 1;
         let next = Self::decide(&mut st, tid, boundary);
@@ -111,17 +146,56 @@ impl Sched {
             st.ihash = mix(st.ihash, ((tid as u64) << 8 | next as u64) ^ site_hash(site));
             st.cur = next;
             self.cv.notify_all();
-            while st.cur != tid {
+            st.waiting[tid] = true;
+            while st.cur != tid && !st.free {
                 st = self.cv.wait(st).unwrap_or_else(std::sync::PoisonError::into_inner);
             }
+            st.waiting[tid] = false;
+            st.progress += 1;
         }
+    }
+
+    /// Progress counter for the coordinating thread's watchdog.
+    pub fn progress(&self) -> u64 {
+        self.lock().progress
+    }
+
+    /// Is the baton holder asleep in the kernel (blocked on a lock the simulator does not own)?
+    /// A holder that is merely slow is in state 'R'.
+    pub fn holder_is_blocked(&self) -> bool {
+        let (cur, in_own_wait) = {
+            let st = self.lock();
+            (st.cur, st.waiting.get(st.cur).copied().unwrap_or(true))
+        };
+        if in_own_wait {
+            // chosen but not yet resumed from the scheduler's own wait: wake-up latency, not a block
+            return false;
+        }
+        let tid = self.os_tids.get(cur).map_or(0, |t| t.load(std::sync::atomic::Ordering::Relaxed));
+        let b = tid != 0 && os_thread_state(tid) == Some('S');
+        if b && std::env::var_os("DSIM_DEBUG_WATCHDOG").is_some() {
+            let rd = |f: &str| std::fs::read_to_string(format!("/proc/self/task/{tid}/{f}")).unwrap_or_default();
+            eprintln!("WATCHDOG holder sim-{cur} tid {tid} asleep: wchan={} syscall={} ", rd("wchan").trim(), rd("syscall").trim());
+        }
+        b
+    }
+
+    /// Watchdog fallback (see `St::free`).
+    pub fn release_all(&self) {
+        let mut st = self.lock();
+        st.free = true;
+        self.cv.notify_all();
     }
 
     /// Called by a simulated thread when its programme is finished.
     pub fn leave(&self, tid: usize) {
         CUR.with(|c| *c.borrow_mut() = None);
         let mut st = self.lock();
+        st.progress += 1;
         st.alive[tid] = false;
+        if st.free {
+            return;
+        }
         if st.alive.iter().any(|a| *a) {
             let next = Self::decide(&mut st, usize::MAX, true);
             st.rec.push(next as u8);
@@ -133,7 +207,7 @@ impl Sched {
 
     pub fn report(&self) -> SchedReport {
         let st = self.lock();
-        SchedReport { rec: st.rec.clone(), ihash: st.ihash, switches: st.switches, inner_switches: st.inner_switches, yields: st.yields }
+        SchedReport { rec: st.rec.clone(), ihash: st.ihash, switches: st.switches, inner_switches: st.inner_switches, yields: st.yields, fell_back_to_free_running: st.free }
     }
 }
 
